@@ -41,7 +41,7 @@ from .. import attach, core
 from ..ref import fsa_lang as fl
 from ..ref import fsa_hist as fh
 from ..ref.fsa_model import Model
-from ..gen import fsa_build, fsa_edit
+from ..gen import fsa_build, fsa_edit, fsa_wordlabels
 
 ID = "C06"
 RULE = ("cases = (automaton, representation class, option tuple (maxlen, with_words, "
@@ -670,7 +670,8 @@ def option_grid(M, rng, full):
 
 
 def drive(run, rng, F, M, rep, exact, L, full, edge_words_opts=(True, False),
-          memo_opts=("shared", "none"), single=True, tag="", sample=7, spec=None):
+          memo_opts=("shared", "none"), single=True, tag="", sample=7, spec=None,
+          own_enum=False):
     """the option grid on one (automaton, representation).  `M` is the
     workload's own model of the automaton; `spec` (the class of the edit
     history, e.g. 'parallel') asks for the history monitor: results are judged
@@ -780,6 +781,64 @@ def drive(run, rng, F, M, rep, exact, L, full, edge_words_opts=(True, False),
                                 else:
                                     en = lib(run, "agreement", "enumerate_fixed_length_paths", lambda: list(
                                         F.enumerate_fixed_length_paths(n, start_vertex=s0, with_states=True)))
+                                if TC is not None:
+                                    # the automaton's own enumeration against the independent
+                                    # references (not only against automaton_accepted): one
+                                    # (word, end state) per path of the workload's model --
+                                    # transfer-matrix count always, path by path below the cap.
+                                    # (seeded change C06-r4-3: enumerate_words keeps its frontier
+                                    # in a dict word -> end state; with word labels of unequal
+                                    # lengths two paths with the same number of edges spell the
+                                    # same word and one of them, with its continuations, is lost)
+                                    op = "enumerate_words" if maxlen else "enumerate_fixed_length_paths"
+                                    s_en = M.starts[0] if m != "start" else s
+                                    n_en = TC.count(n, s_en, exact=not maxlen)
+                                    agree.require(len(en) == n_en,
+                                                  "agreement/own-enumeration-vs-path-count/%s" % op,
+                                                  "FSA.%s(%d, with_states=True) yields %d items; the automaton "
+                                                  "has %d paths (transfer-matrix count)" % (op, n, len(en), n_en))
+                                    if nviol(run) == v0 and n_en <= PATH_CAP:
+                                        ref_en = collections.Counter()
+                                        for (w, e), c in fl.language(M, n, s_en, exact=not maxlen).items():
+                                            ref_en[(fl.concat(w), e)] += c
+                                        try:
+                                            got_en = collections.Counter(en)
+                                        except TypeError:
+                                            got_en = None
+                                        if got_en != ref_en:
+                                            miss = sorted((ref_en - got_en).elements(), key=repr)[:4] \
+                                                if got_en is not None else None
+                                            extra = sorted((got_en - ref_en).elements(), key=repr)[:4] \
+                                                if got_en is not None else None
+                                            agree.fail("agreement/own-enumeration-vs-paths/%s" % op,
+                                                       "FSA.%s(%d, with_states=True) is not the list of "
+                                                       "(word, end state) of the automaton's paths, each once: "
+                                                       "missing %r, not a path / repeated %r"
+                                                       % (op, n, miss, extra))
+                                        else:
+                                            agree.ok()
+                                    if own_enum:
+                                        # the plain-word form of both enumerators, same reference
+                                        for op2, fn2, ex2 in (("enumerate_words", F.enumerate_words, False),
+                                                              ("enumerate_fixed_length_paths",
+                                                               F.enumerate_fixed_length_paths, True)):
+                                            if nviol(run) != v0:
+                                                break
+                                            ws2 = lib(run, "agreement", op2,
+                                                      lambda: list(fn2(n, start_vertex=s0)))
+                                            n2 = TC.count(n, s_en, exact=ex2)
+                                            good = len(ws2) == n2
+                                            if good and n2 <= PATH_CAP:
+                                                ref2 = collections.Counter(
+                                                    fl.concat(w) for (w, _e), c in
+                                                    fl.language(M, n, s_en, exact=ex2).items() for _ in range(c))
+                                                good = collections.Counter(ws2) == ref2
+                                            agree.require(good, "agreement/own-enumeration-vs-paths/%s/plain" % op2,
+                                                          "FSA.%s(%d) does not yield the word of every path of "
+                                                          "the automaton exactly once per path (%d items, %d paths)"
+                                                          % (op2, n, len(ws2), n2))
+                                    if nviol(run) != v0:
+                                        raise Stop()
                                 want = collections.Counter(w for (w, e) in en if m != "end" or e == s)
                                 agree.require(collections.Counter(words) == want,
                                               "agreement/vs-fsa-enumeration/mode:%s/maxlen:%s" % (m, maxlen),
@@ -824,7 +883,7 @@ def drive(run, rng, F, M, rep, exact, L, full, edge_words_opts=(True, False),
         "start_state and end_state together are documented as an error")
 
 
-def one_case(run, rng, d, start, labels, rt, kind, L, full, F=None):
+def one_case(run, rng, d, start, labels, rt, kind, L, full, F=None, **drive_kw):
     M = Model.from_label_dict(d, [start])
     _ctx.update(route=rt, rep=kind)
     run.current_case = {"route": rt, "rep": kind,
@@ -838,7 +897,7 @@ def one_case(run, rng, d, start, labels, rt, kind, L, full, F=None):
             return run.monitor("accepted-set").skip("construction route did not give the specified automaton (C09)")
         rep, exact = make_rep(rng, kind, lower_names(labels))
         run.current_case["generators"] = {k: np.asarray(v) for k, v in rep.generators.items()}
-        drive(run, rng, F, M, rep, exact, L, full)
+        drive(run, rng, F, M, rep, exact, L, full, **drive_kw)
     except Stop:
         pass
     finally:
@@ -927,6 +986,35 @@ def wl_multiple(run, rng, idx):
         pass
     finally:
         _ctx.update(route="ambient", rep="ambient")
+
+
+WORD_LETTERS = [("a", "b", "c"), ("a", "b"), ("a",), ("x", "q")]
+
+
+def wl_wordlabels(run, rng, idx):
+    """edge labels that are words of *unequal* lengths with colliding
+    concatenations (u, uv, vw, w: u.vw and uv.w; u, uu: u.uu and uu.u), read as
+    words (edge_words=True): two accepting paths with the same number of edges
+    spell the same word, ending in different states or in the same one.  Every
+    path counts once -- in automaton_accepted (all modes) and in the
+    automaton's own enumerators, with and without states, which are judged
+    here against the independent path enumeration and the transfer count.
+    (automaton_multiple output has labels of one length and never collides.)
+    (seeded change C06-r4-3: FSA.enumerate_words holds its frontier as a dict
+    word -> end state and loses one of two equally spelled paths.)"""
+    family = fsa_wordlabels.FAMILIES[idx % len(fsa_wordlabels.FAMILIES)]
+    letters = WORD_LETTERS[(idx // len(fsa_wordlabels.FAMILIES)) % len(WORD_LETTERS)]
+    d, start, labels, planted = fsa_wordlabels.random_automaton(rng, family, letters)
+    rt = fsa_build.ROUTES[idx % NR]
+    kind = REP_KINDS[(idx // 2) % len(REP_KINDS)]
+    M = Model.from_label_dict(d, [start])
+    L = 4
+    cap = 400 if run.tier == "quick" else 1500
+    while L > 2 and fl.count_paths(M, L, start, PATH_CAP) > cap:
+        L -= 1
+    one_case(run, rng, d, start, labels, rt, kind, L, full=(idx % 4 == 0),
+             edge_words_opts=(True,), tag="wordlabels:" + family, own_enum=True)
+    run.note_class("wordlabels", family, len(letters), rt, kind)
 
 
 def wl_names(run, rng, idx):
@@ -1266,6 +1354,7 @@ WORKLOADS = [
     Workload("random", wl_random, quick=36, thorough=2400),
     Workload("multiple-labels", wl_multiple, quick=14, thorough=400),
     Workload("generator-names", wl_names, quick=12, thorough=400),
+    Workload("word-labels", wl_wordlabels, quick=12, thorough=480),
     Workload("builtin", wl_builtin, quick=20, thorough=100),
     Workload("free-group", wl_free, quick=9, thorough=120),
     Workload("free-group-names", wl_free_names, quick=2, thorough=8),
